@@ -30,6 +30,8 @@ PROP = "C19"
 PROPS_MODULES = ["AsyncFix.Props.C19"]
 FINDINGS_MODULE = "AsyncFix.Findings.C19"
 ASSUMPTIONS = [
+    "the model is stateless: validate_value is a function of the field's CURRENT tag / ftype / values and the argument; histories on "
+    "SchemaField objects (re-assigned attributes, shared values dicts, repeated use) are covered by correspondence + oracle only",
     "datatype names of the dictionaries are ASCII (checked on both XML files every run): str.upper() is modelled by ASCII upper-casing",
     "sys.get_int_max_str_digits() is a parameter of the model (Cfg.maxStrDigits); the run uses the interpreter's value",
     "values shorter than 10^9 characters (the MAX_DIGITS / MAX_ABS_EXP clipping of _Py_dg_strtod is not modelled)",
@@ -579,6 +581,224 @@ def python_formatted_values(rng, tier):
     return out
 
 
+# ----------------------------------------------------------------------------------------------
+# Unicode specials per character class; component boundaries; histories
+# ----------------------------------------------------------------------------------------------
+_LOOK = None
+
+
+def unicode_lookalikes():
+    """ascii char -> (all code points that NFKC/NFKD-normalise, casefold, lower() or upper() to it, or carry its
+    decimal/digit value; combining marks ignored), (the subset reached through a CASE mapping: K/ſ/İ/ı …)"""
+    global _LOOK
+    if _LOOK is not None:
+        return _LOOK
+    cache = os.path.join(C.LEAN, ".lake", "c19_lookalikes_%s_%d%d.json" % (unicodedata.unidata_version, *sys.version_info[:2]))
+    try:
+        with open(cache) as f:
+            j = json.load(f)
+        _LOOK = (j["all"], j["case"])
+        return _LOOK
+    except (OSError, ValueError, KeyError):
+        pass
+    allm, casem = {}, {}
+
+    def base(r):
+        r = "".join(x for x in r if unicodedata.category(x) != "Mn")
+        return r if len(r) == 1 and ord(r) < 128 else None
+
+    for c in range(128, 0x110000):
+        ch = chr(c)
+        if unicodedata.category(ch) in ("Cn", "Co", "Cs"):
+            continue
+        t_all, t_case = set(), set()
+        for f in (str.casefold, str.lower, str.upper):
+            b = base(f(ch))
+            if b:
+                t_case.add(b)
+        for form in ("NFKC", "NFKD"):
+            b = base(unicodedata.normalize(form, ch))
+            if b:
+                t_all.add(b)
+        for f in (unicodedata.decimal, unicodedata.digit):
+            try:
+                v = f(ch)
+                if 0 <= v <= 9:
+                    t_all.add(str(v))
+            except ValueError:
+                pass
+        for a in t_all | t_case:
+            allm.setdefault(a, []).append(c)
+        for a in t_case:
+            casem.setdefault(a, []).append(c)
+            casem.setdefault(a.swapcase(), []).append(c)
+    _LOOK = (allm, casem)
+    try:
+        os.makedirs(os.path.dirname(cache), exist_ok=True)
+        with open(cache, "w") as f:
+            json.dump({"all": allm, "case": casem}, f)
+    except OSError:
+        pass
+    return _LOOK
+
+
+LOOKALIKE_EXEMPLARS = {
+    "int": ["12", "-7", "31", "1"],
+    "float": ["1.5", "-0.25", "7"],
+    "code": ["US", "UK", "USD", "NYSE", "Ab1", "is", "SKI", "k"],
+    "boolean": ["Y", "N"],
+    "string": ["A", "a=b"],
+    "date": ["20230921", "202309", "202309w1"],
+    "time": ["20230921-14:00:00.123", "14:00:00", "23:59:59.123"],
+    "length": ["12"],
+    "data": ["x"],
+}
+
+
+def lookalike_cases(ctx, upper_seen):
+    """every position of every exemplar replaced by the non-ASCII code points that fold / normalise to its character"""
+    allm, casem = unicode_lookalikes()
+    per_pos = ctx.n(24, 10**9)
+    out, nvar, ncase = [], 0, 0
+    fam_types = {}
+    for t in sorted(upper_seen):
+        if t in SPEC:
+            fam_types.setdefault(SPEC[t][2], []).append(t)
+    for fam, exs in LOOKALIKE_EXEMPLARS.items():
+        for ex in exs:
+            for i, ch in enumerate(ex):
+                special = sorted(set(casem.get(ch, [])))
+                others = [c for c in allm.get(ch, []) + allm.get(ch.swapcase(), []) if c not in special]
+                if len(others) > per_pos:
+                    others = ctx.rng.sample(others, per_pos)
+                for c in special + others:
+                    v = ex[:i] + chr(c) + ex[i + 1 :]
+                    nvar += 1
+                    ncase += c in special
+                    for t in fam_types.get(fam, []):
+                        out.append((t, "1", (), v))
+    return out, {"variants": nvar, "through a case mapping": ncase,
+                 "ascii characters with non-ASCII equivalents": len(allm), "equivalent code points": sum(len(v) for v in allm.values())}
+
+
+def component_boundary_cases(upper_seen):
+    """boundary values (00, 01, max, max+1, 99) of every numeric component of the date / time / MonthYear forms,
+    component-wise around valid bases and pairwise for year/month/day; week codes w0..w6"""
+    years = ["0000", "0001", "1900", "2000", "2023", "2024", "9999"]
+    months = ["00", "01", "02", "04", "12", "13", "99"]
+    days = ["00", "01", "28", "29", "30", "31", "32", "99"]
+    hours = ["00", "23", "24", "99"]
+    mins = ["00", "59", "60", "99"]
+    secs = ["00", "59", "60", "61", "62", "99"]
+    fracs = ["", ".", ".0", ".00", ".000", ".999", ".0000", ".00000", ".000000", ".999999", ".0000000"]
+    weeks = ["w0", "w1", "w2", "w3", "w4", "w5", "w6", "w", "W1", "w10", "ww"]
+    dates = [y + m + d for y in years for m in months for d in days]
+    times = [h + ":" + "30" + ":" + "30" for h in hours] + ["12:" + m + ":30" for m in mins] + ["12:30:" + x for x in secs]
+    times += [h + ":" + m + ":" + x for h in ("00", "23", "24") for m in ("00", "59", "60") for x in ("00", "59", "60")]
+    times = [t + f for t in times for f in fracs[:1]] + ["12:30:30" + f for f in fracs] + ["23:59:60" + f for f in fracs[:6]]
+    stamps = [d + "-" + t for d in ("20240229", "20230229", "00000101", "99991231", "20231301", "20230100") for t in times[:40]]
+    stamps += [d + "-12:30:30" for d in dates[::3]]
+    monthyears = [y + m for y in years for m in months] + [y + m + w for y in ("0000", "2023", "9999") for m in months for w in weeks] + dates[::2]
+    out = []
+    plan = {"LOCALMKTDATE": dates, "UTCDATEONLY": dates, "UTCTIMEONLY": times, "UTCTIMESTAMP": stamps, "MONTHYEAR": monthyears}
+    for t, vals in plan.items():
+        if t in upper_seen:
+            for v in vals:
+                out.append((t, "1", (), v))
+    # day-of-month and the numeric families get the same boundary strings
+    for t in ("DAYOFMONTH", "INT", "SEQNUM"):
+        if t in upper_seen:
+            for v in days + months + ["031", "0031", "-31", "+31"]:
+                out.append((t, "1", (), v))
+    return out, {k: len(v) for k, v in plan.items()}
+
+
+HISTORY_POOL = ["5", "-1", "0", "1.5", "Y", "US", "USD1", "20230921", "14:00:00", "20230921-14:00:00", "202309w1", "abc", "a=b", "="]
+
+
+def history_scenarios(ctx, types):
+    """operation sequences on SchemaField objects: validate, re-assign public attributes (ftype, tag, values),
+    validate again; the same value twice; two fields sharing one `values` dict.  Each scenario is a JSON-able op list:
+    ["new", i, ftype, tag, enums] | ["validate", i, value] | ["set", i, attr, value] | ["share_values", i, j] | ["values_add", i, key]"""
+    ts = sorted({t.upper() for t in types})
+    sc = []
+    for a in ts:
+        for b in ts:
+            if a == b:
+                continue
+            ops = [["new", 0, a, "1", []], ["validate", 0, "5"], ["validate", 0, "5"], ["set", 0, "ftype", b]]
+            ops += [["validate", 0, v] for v in HISTORY_POOL]
+            sc.append(ops)
+    for a in ts:
+        # case of the type name, tag 16 switched on and off, enumerators added and removed
+        sc.append([["new", 0, a, "1", []], ["validate", 0, "0"], ["set", 0, "tag", "16"], ["validate", 0, "0"], ["validate", 0, "00"],
+                   ["set", 0, "tag", "1"], ["validate", 0, "0"], ["set", 0, "ftype", a.lower()], ["validate", 0, "0"], ["validate", 0, "Y"]])
+        sc.append([["new", 0, a, "1", []], ["validate", 0, "Y"], ["set", 0, "values", ["A", "B"]], ["validate", 0, "Y"], ["validate", 0, "A"],
+                   ["set", 0, "values", []], ["validate", 0, "A"], ["validate", 0, "Y"]])
+        b = ts[(ts.index(a) + 7) % len(ts)]
+        # two fields: interleaved use, then sharing one values dict that is extended afterwards
+        sc.append([["new", 0, a, "1", []], ["new", 1, b, "1", []], ["validate", 0, "5"], ["validate", 1, "5"], ["validate", 0, "Y"], ["validate", 1, "Y"],
+                   ["set", 0, "values", ["1"]], ["share_values", 0, 1], ["validate", 1, "1"], ["validate", 1, "5"], ["values_add", 0, "5"],
+                   ["validate", 1, "5"], ["validate", 0, "5"]])
+    return sc
+
+
+def run_history(ops):
+    """-> list of (step index, (ftype, tag, enums) at that moment, value, implementation result on the persistent objects)"""
+    from asyncfix.protocol.schema import SchemaField
+
+    fields, out = {}, []
+    for k, op in enumerate(ops):
+        if op[0] == "new":
+            f = SchemaField(op[3], "Probe%d" % op[1], op[2])
+            if op[4]:
+                f.values = {e: "" for e in op[4]}
+            fields[op[1]] = f
+        elif op[0] == "set":
+            f = fields[op[1]]
+            if op[2] == "values":
+                f.values = {e: "" for e in op[3]}
+            else:
+                setattr(f, op[2], op[3])
+        elif op[0] == "share_values":
+            fields[op[2]].values = fields[op[1]].values
+        elif op[0] == "values_add":
+            fields[op[1]].values[op[2]] = ""
+        elif op[0] == "validate":
+            f = fields[op[1]]
+            out.append((k, (f.ftype, f.tag, tuple(f.values.keys())), op[2], impl_on(f, op[2])))
+    return out
+
+
+def impl_on(f, value):
+    from asyncfix.errors import FIXMessageError
+
+    with warnings.catch_warnings():
+        warnings.simplefilter("ignore")
+        try:
+            r = f.validate_value(value)
+        except FIXMessageError:
+            return "fme"
+        except BaseException as e:  # noqa
+            return "raised:" + type(e).__name__.replace("Error", "")
+    return "ok" if r is True else f"returned:{r!r}"
+
+
+def history_verdicts(ops, maxdigits):
+    """oracle for one history: every validate step must behave like a FRESH field with the same attributes and get the SPEC verdict"""
+    res = []
+    for k, (ft, tag, es), v, got in run_history(ops):
+        fresh = call_impl(ft, tag, es, v)
+        if got != fresh:
+            res.append((k, "C19-history:differs-from-fresh-field", f"step {k}: {ft} field (tag {tag}) answers {got} for {v!r}, a fresh field with the same attributes answers {fresh}", got))
+            continue
+        c = (ft, tag, es, v)
+        verdict = enum_verdict(c, got) if es else classify(ft, tag, v, got, maxdigits) if ft.upper() in SPEC else None
+        if verdict:
+            res.append((k, verdict[0], verdict[1], got))
+    return res
+
+
 def dictionary_types(dicts):
     types = []
     for name, fields in dicts.items():
@@ -643,9 +863,16 @@ def typed_cases(ctx, types, maxdigits):
     for name, v in pf:
         by_fmt[name.split(":")[0]] = by_fmt.get(name.split(":")[0], 0) + 1
         seen_str.setdefault(v, name)
-    for v in sorted(seen_str):
+    pf_strings = sorted(seen_str)
+    if ctx.tier != "thorough" and len(pf_strings) > 1600:
+        keep = [v for v in pf_strings if seen_str[v].split(":")[1] in ("str", "repr", "isoformat", "%g", "%e")]
+        kset = set(keep)
+        rest = [v for v in pf_strings if v not in kset]
+        pf_strings = sorted(set(keep[:900] + ctx.rng.sample(rest, max(0, 1600 - min(len(keep), 900)))))
+    for v in pf_strings:
         for t in sorted(upper_seen):
             cases.append((t, "1", (), v))
+    stats["python-formatted:strings used (quick tier samples)"] = len(pf_strings)
     stats["python-formatted:cases"] = len(cases) - n0
     stats["python-formatted:distinct strings"] = len(seen_str)
     stats["python-formatted:produced by value kind"] = by_fmt
@@ -655,7 +882,19 @@ def typed_cases(ctx, types, maxdigits):
         {"1-4": (1, 4), "5-8": (5, 8), "9-16": (9, 16), "17-32": (17, 32), ">32": (33, 10**9)}.items()
     }
     stats["python-formatted:with exponent marker"] = sum(1 for v in seen_str if re.fullmatch(r"-?[0-9.]+[eE][+-]?[0-9]+", v))
-    ctx.c19_pf = set(seen_str)
+    ctx.c19_pf = set(pf_strings)
+    # Unicode specials per character class, for every datatype that restricts its alphabet
+    n0 = len(cases)
+    lc, lstats = lookalike_cases(ctx, upper_seen)
+    cases += lc
+    stats["unicode-equivalents:cases"] = len(cases) - n0
+    stats["unicode-equivalents:detail"] = lstats
+    # boundary values of every numeric component of the date / time / MonthYear forms
+    n0 = len(cases)
+    bc, bstats = component_boundary_cases(upper_seen)
+    cases += bc
+    stats["component-boundaries:cases"] = len(cases) - n0
+    stats["component-boundaries:values per type"] = bstats
     # tag 16, case variants of type names, unknown type, non-str / empty
     n0 = len(cases)
     for t in sorted(upper_seen):
@@ -697,7 +936,7 @@ def enum_cases(ctx, dicts):
 # correspondence
 # ----------------------------------------------------------------------------------------------
 def check_tables(drv):
-    """compiled Unicode tables == the running interpreter, on all code points"""
+    """compiled Unicode tables == the running interpreter, on all non-ASCII code points"""
     dis = []
     zeros = [int(x) for x in drv.batch(["lex.tables digits"])[0].split()]
     spaces = set(int(x) for x in drv.batch(["lex.tables spaces"])[0].split())
@@ -705,20 +944,27 @@ def check_tables(drv):
     for z in zeros:
         for i in range(10):
             dec[z + i] = i
-    dre = re.compile(r"\d")
-    n = 0
-    for c in range(128, 0x110000):
-        ch = chr(c)
-        n += 1
+    rng_ = range(128, 0x110000)
+    py_dec = {c: d for c in rng_ if (d := unicodedata.decimal(chr(c), None)) is not None}
+    py_space = {c for c in rng_ if chr(c).isspace()}
+    every = "".join(map(chr, rng_))
+    re_digits = {ord(ch) for ch in re.findall(r"\d", every)}
+    int_ok = set()
+    for c in set(py_dec) | set(dec):
         try:
-            iv = int(ch)
+            if int(chr(c)) == py_dec.get(c):
+                int_ok.add(c)
         except ValueError:
-            iv = None
-        if dec.get(c) != iv or bool(dre.match(ch)) != (iv is not None):
-            dis.append({"input": f"decimal U+{c:04X}", "model": dec.get(c), "impl": iv})
-        if (c in spaces) != ch.isspace():
-            dis.append({"input": f"space U+{c:04X}", "model": c in spaces, "impl": ch.isspace()})
-    return n, dis[:20]
+            pass
+    for c in sorted(set(dec) ^ set(py_dec))[:10]:
+        dis.append({"input": f"decimal U+{c:04X}", "model": dec.get(c), "impl": py_dec.get(c)})
+    for c in sorted(c for c in dec if c in py_dec and dec[c] != py_dec[c])[:10]:
+        dis.append({"input": f"decimal value U+{c:04X}", "model": dec[c], "impl": py_dec[c]})
+    for c in sorted((re_digits ^ set(py_dec)) | (int_ok ^ set(py_dec)))[:10]:
+        dis.append({"input": f"re \\d / int() vs unicodedata.decimal U+{c:04X}", "model": c in dec, "impl": (c in re_digits, c in int_ok)})
+    for c in sorted(spaces ^ py_space)[:10]:
+        dis.append({"input": f"space U+{c:04X}", "model": c in spaces, "impl": c in py_space})
+    return len(rng_), dis
 
 
 def py_int(s):
@@ -823,6 +1069,25 @@ def correspondence(ctx):
     nval = len(cases)
     impl_of = dict(zip(cases, impl_results))
 
+    # 2b. histories on SchemaField objects: the model is stateless, so every validate step must equal the model on
+    #     the attributes the object has at that moment
+    hist = history_scenarios(ctx, types)
+    hsteps, hlines = [], []
+    for hi, ops in enumerate(hist):
+        for k, (ft, tag, es), v, got in run_history(ops):
+            hsteps.append((hi, k, ft, tag, es, v, got))
+            hlines.append(model_line(ft, tag, es, v, maxdigits))
+    hmodel = drv.batch(hlines)
+    bad_hist = set()
+    for (hi, k, ft, tag, es, v, got), ml in zip(hsteps, hmodel):
+        if got != ml and hi not in bad_hist:
+            bad_hist.add(hi)
+            dis.append({"input": {"history": hist[hi], "step": k}, "model": ml, "impl": got, "level": "history"})
+    distribution["history:scenarios"] = len(hist)
+    distribution["history:validate steps"] = len(hsteps)
+    distribution["history:ops"] = {o: sum(1 for ops in hist for op in ops if op[0] == o) for o in ("new", "validate", "set", "share_values", "values_add")}
+    ctx.c19_hist = hist
+
     # 3. the modelled CPython primitives one level down, on the distinct values of the typed cases
     values = sorted({c[3] for c in typed if isinstance(c[3], str) and c[0].upper() in NUM_TYPES})
     lines = [f"lex.int {maxdigits} {enc(v)}" for v in values] + [f"lex.float {enc(v)}" for v in values]
@@ -833,8 +1098,8 @@ def correspondence(ctx):
         if out[len(values) + i] != py_float(v):
             dis.append({"input": {"float()": v}, "model": out[len(values) + i], "impl": py_float(v), "level": "primitive"})
     dvals = sorted({c[3] for c in typed if isinstance(c[3], str) and c[0].upper() in DT_TYPES})
-    if ctx.tier != "thorough" and len(dvals) > 60000:
-        dvals = ctx.rng.sample(dvals, 60000)
+    if ctx.tier != "thorough" and len(dvals) > 20000:
+        dvals = ctx.rng.sample(dvals, 20000)
     lines = [f"lex.strp {f} {enc(v)}" for v in dvals for f in FMT]
     out = drv.batch(lines)
     k = 0
@@ -851,8 +1116,8 @@ def correspondence(ctx):
     # 4. the predicates the theorems are about: Lean SPEC == Python SPEC, Lean narrow marks == Python's,
     #    and the theorem's shape itself on the implementation: accepted == (spec and not narrow) or deviation
     sub = [c for c in typed if isinstance(c[3], str) and c[0].upper() in SPEC]
-    if ctx.tier != "thorough" and len(sub) > 70000:
-        sub = ctx.rng.sample(sub, 70000)
+    if ctx.tier != "thorough" and len(sub) > 45000:
+        sub = ctx.rng.sample(sub, 45000)
     lines = []
     for (t, tag, es, v) in sub:
         lines.append(f"lex.s {SPEC[t.upper()][0]} {1 if tag == '16' else 0} {enc(v)}")
@@ -882,7 +1147,7 @@ def correspondence(ctx):
             samples.append({"type": c[0], "tag": c[1], "enums": list(c[2])[:6], "value": c[3], "model": model[i], "impl": impl_results[i]})
     ctx.c19_cache = (cases, impl_results, maxdigits)
     return {
-        "evaluations": nval + nprim + npred + ntab,
+        "evaluations": nval + nprim + npred + ntab + len(hsteps),
         "distinct_nontrivial": len(distinct),
         "rule": "distinct (datatype, is-tag-16, enumerators, value) tuples sent through validate_value on both sides "
         "(every tuple selects a dispatch branch and a path through int()/float()/re/strptime); the primitive-level, "
@@ -970,8 +1235,27 @@ def oracle(ctx, disagreements, broken):
                     "observed": impl,
                 }
             )
+    # histories: the disagreeing ones first, then all scenarios (cheap)
+    hists = [d["input"]["history"] for d in disagreements if isinstance(d.get("input"), dict) and "history" in d["input"]]
+    hists += getattr(ctx, "c19_hist", None) or history_scenarios(ctx, dictionary_types(dictionaries()))
+    nh = 0
+    seen_h = set()
+    for ops in hists:
+        key = json.dumps(ops)
+        if key in seen_h:
+            continue
+        seen_h.add(key)
+        for k, sig, what, got in history_verdicts(ops, maxdigits):
+            nh += 1
+            if sig.startswith("C19-history:"):
+                # shrink: keep the ops up to the failing step
+                failures.append({"signature": sig, "what": what, "input": {"history": ops[: k + 1], "value": ops[k][2]},
+                                 "expected": "the answer of a fresh field with the same attributes", "observed": got})
+            else:
+                failures.append({"signature": sig, "what": what, "input": {"history": ops[: k + 1], "value": ops[k][2]},
+                                 "expected": "lexical-space verdict", "observed": got})
     # smallest witness first per signature
-    failures.sort(key=lambda f: (f["signature"], len(f["input"]["value"]) if isinstance(f["input"]["value"], str) else 0))
+    failures.sort(key=lambda f: (f["signature"], "history" in f["input"], len(f["input"]["value"]) if isinstance(f["input"]["value"], str) else 0))
     by_sig = {}
     for f in failures:
         by_sig[f["signature"]] = by_sig.get(f["signature"], 0) + 1
@@ -982,6 +1266,10 @@ def oracle(ctx, disagreements, broken):
 def replay(ctx, rp):
     i = rp["input"]
     maxdigits = sys.get_int_max_str_digits()
+    if "history" in i:
+        vs = history_verdicts(i["history"], maxdigits)
+        print("replay history:", i["history"], "->", vs)
+        return any(sig == rp["signature"] for _, sig, _, _ in vs)
     c = (i["type"], i.get("tag", "1"), tuple(i.get("enums", ())), i["value"])
     impl = call_impl(*c)
     verdict = enum_verdict(c, impl) if c[2] else classify(c[0], c[1], c[3], impl, maxdigits) if c[0].upper() in SPEC else None
